@@ -21,6 +21,7 @@ class VOps (α : Type) where
   cosh : α → α
   tanh : α → α
   exp : α → α
+  sqrt : α → α
 
 namespace VOps
 variable {α : Type} [VOps α]
@@ -98,6 +99,7 @@ instance : VOps Rat where
   cosh := id
   tanh := id
   exp := id
+  sqrt := id
 
 instance : VOps Float where
   add := (· + ·)
@@ -109,5 +111,6 @@ instance : VOps Float where
   cosh := Float.cosh
   tanh := Float.tanh
   exp := Float.exp
+  sqrt := Float.sqrt
 
 end Ladim
